@@ -46,6 +46,9 @@ Internal ==
   /\ UNCHANGED fin
   /\ IF \E i \in Honest : ENABLED Fail(i)
        THEN LET i == CHOOSE x \in Honest : ENABLED Fail(x) IN Fail(i) /\ (IF pend[i] THEN Ret(i) ELSE Quiet)
+     \* (a member that is about to die dies BEFORE its next periodic message is counted as delivered)
+     ELSE IF \E i \in Honest : ENABLED TooFar(i) /\ ~Lagging(i) /\ Sure(i)
+       THEN LET i == CHOOSE x \in Honest : ENABLED TooFar(x) /\ ~Lagging(x) /\ Sure(x) IN TooFar(i) /\ Ret(i)
      ELSE IF \E i \in Honest : ENABLED FRej(i)
        THEN LET i == CHOOSE x \in Honest : ENABLED FRej(x) IN FRej(i) /\ Quiet
      ELSE IF \E j, i \in Honest : i # j /\ ClientUp(j, i) /\ ServerUp(i) /\ Changes(j, i)
@@ -55,8 +58,6 @@ Internal ==
        THEN LET i == CHOOSE x \in Honest : ENABLED Connected(x) IN Connected(i) /\ Quiet
      ELSE IF \E i \in Honest : ENABLED Pass(i) /\ Sure(i)
        THEN LET i == CHOOSE x \in Honest : ENABLED Pass(x) /\ Sure(x) IN Pass(i) /\ (IF phase[i] = "wait" THEN Ret(i) ELSE Quiet)
-     ELSE IF \E i \in Honest : ENABLED TooFar(i) /\ ~Lagging(i) /\ Sure(i)
-       THEN LET i == CHOOSE x \in Honest : ENABLED TooFar(x) /\ ~Lagging(x) /\ Sure(x) IN TooFar(i) /\ Ret(i)
      ELSE IF \E i \in Honest, j \in Members : ENABLED ShutMsg(i, j)
        THEN LET p == CHOOSE q \in Honest \X Members : ENABLED ShutMsg(q[1], q[2]) IN ShutMsg(p[1], p[2]) /\ Quiet
      ELSE LET i == CHOOSE x \in Honest : ENABLED Down(x) IN Down(i) /\ Ret(i)
